@@ -328,6 +328,7 @@ class Sim:
         self.ctx[x].objs.discard(o)
         self.mgr[x].handle_object_removed(o)
         self.pop()
+        self.flush()          # the removal notices are on the wire before anything else happens
         self.ev("objremove", x, o, {k: v for k, v in self.sent_n.items() if k[0] == x})
 
     def op_deliver(self, x, y):
